@@ -20,6 +20,18 @@ CHECKS = {
              "of the rewriter; the laws are facts about CPython's evaluation, validated by the differential oracle, not proved. Trusted: Coq kernel + vm_compute; the "
              "AST exporter (interning, id canonicalisation); translators for node kinds, event names and reserved identifiers.",
         ref="DESIGN.md section 7 C01"),
+    "C02": dict(
+        technique="Coq proofs (delivery of one occurrence: exactly once, stack order, value unchanged; site-value soundness of a verified checker) + per-program site / erasure certificates in coqc + complete-stream differential against an independent reference instrumenter",
+        text="Delivery: C02_emit_observing / C02_delivered_iff / C02_delivery_order / C02_value - for every stack of observing tracers and every handler list, one occurrence "
+             "reaching emit_event is delivered to each enabled handler exactly once (strictly increasing (tracer, handler) order), carrying the program's value, and the value "
+             "is handed back unchanged; derived from model/Rt.v, whose decision functions are regenerated from tracer.py on every run. Static: check_sites (model/Sites.v) is "
+             "evaluated by coqc on every rewritten program of the run: at every emit site the expression handed to the handler, once its own instrumentation is erased, is the source "
+             "construct numbered by the embedded node id (or its designated child) that the event table names; C02_site_value turns a passed check into semantic equivalence. "
+             "Dynamic: ~90 generated programs (every supported event alone, then subsets) - the complete recorded stream (event, node type, span, value) must equal, in order, "
+             "the stream of tools/impl/ref_instr.py (probes placed on the source AST from the event table alone), including brackets ended by return/break/continue/exception.",
+        note="Trusted: Coq kernel + vm_compute; ref_instr.py as the definition of what each event means (59 events with an unambiguous source meaning); astexport; the laws of EraseSound.v "
+             "(Section hypotheses). Choices: bare except = except BaseException with no source node; before_subscript_* fire after the subscript expression.",
+        ref="DESIGN.md section 7 C02"),
     "C04": dict(
         technique="Coq proof (refinement of the runtime fold to the stated rule, induction over handler and tracer lists) with decision tables regenerated from source + in-coqc correspondence",
         text="C04_fold and C04_before_stmt are Qed-closed for every stack of tracers, handler list, outcome function and initial value. "
